@@ -149,7 +149,7 @@ Definition failing_options : list bytes := map opt_name (filter (fun o => negb (
 
 
 (* ---------- the loops that apply an option list to an object ---------- *)
-From Scrapli Require Import DecideLoops.
+From Scrapli Require Import DecideLemmas.
 From Coq Require Import Arith Lia.
 Open Scope nat_scope.
 
